@@ -1,5 +1,5 @@
 """Shared machinery: TLC runner, exact/float comparison, verdicts, evidence, known findings."""
-import json, os, re, shutil, subprocess, sys, tempfile, time, hashlib
+import hashlib, json, os, re, shutil, subprocess, sys, tempfile, time
 from fractions import Fraction
 
 VERIF = os.path.dirname(os.path.dirname(os.path.abspath(__file__)))
@@ -139,6 +139,25 @@ def run_tlc(module, cfg, env=None, workers=None, timeout=3600, simulate=None, ex
             coverage=False, jvm=None, postcondition_ok=True):
     """Run TLC on spec/<module>.tla with spec/<cfg>; returns TLCResult (cases = decoded PrintT lines)."""
     workers = workers or NCPU
+    # Diagnostic campaigns (tools/mutants.py) replay the SAME specification output into many variants of the code: the output of a
+    # pure-specification run does not depend on the code, so it may be kept between runs.  Never set by a registered command.
+    cache_dir = os.environ.get("VERIF_TLC_CACHE")
+    cache_file = None
+    if cache_dir and not simulate and not (env and "TRACE_FILE" in env):
+        h = hashlib.sha1()
+        for fn in sorted(os.listdir(SPEC)):
+            if fn.endswith(".tla") or fn == cfg:
+                with open(os.path.join(SPEC, fn), "rb") as fh:
+                    h.update(fn.encode() + b"\0" + fh.read())
+        h.update(json.dumps([module, cfg, sorted((env or {}).items()), list(extra or []), list(tags)], default=str).encode())
+        cache_file = os.path.join(cache_dir, "%s.%s.%s.out" % (module, cfg, h.hexdigest()[:16]))
+        if os.path.exists(cache_file):
+            res = TLCResult()
+            res.cmd = "(cached) %s %s" % (module, cfg)
+            _parse_tlc_stdout(cache_file, res, tags=tags)
+            res.returncode = 0 if res.ok else 1
+            res.wall = 0.0
+            return res
     scratch = tempfile.mkdtemp(prefix="verif_tlc_")
     out = os.path.join(scratch, "stdout.txt")
     os.makedirs(os.path.join(scratch, "jtmp"), exist_ok=True)
@@ -164,6 +183,10 @@ def run_tlc(module, cfg, env=None, workers=None, timeout=3600, simulate=None, ex
             p = subprocess.run(cmd, cwd=SPEC, env=e, stdout=fo, stderr=subprocess.STDOUT, timeout=timeout)
         res.returncode = p.returncode
         _parse_tlc_stdout(out, res, tags=tags)
+        if cache_file and res.ok and not res.error:
+            os.makedirs(cache_dir, exist_ok=True)
+            shutil.copyfile(out, cache_file + ".tmp%d" % os.getpid())
+            os.replace(cache_file + ".tmp%d" % os.getpid(), cache_file)
     except subprocess.TimeoutExpired:
         res.returncode = -9
         _parse_tlc_stdout(out, res, tags=tags)
@@ -205,7 +228,19 @@ class Ctx:
         self.replay_mode = replay is not None
         self.inconclusive = 0
         self.theorems = []
-        self.full = None     # the complete emitted case currently being replayed (stored with a violation)
+        self._full = None    # the complete emitted case currently being replayed (stored with a violation)
+        self.seen_full = []  # every case replayed in the first pass (for the shuffled second pass)
+        self.second_pass = False
+
+    @property
+    def full(self):
+        return self._full
+
+    @full.setter
+    def full(self, value):
+        self._full = value
+        if not self.second_pass and not self.replay_mode and isinstance(value, dict) and (not self.seen_full or self.seen_full[-1] is not value):
+            self.seen_full.append(value)
 
     # bookkeeping ---------------------------------------------------------
     def add_tlc(self, res, note=""):
@@ -215,6 +250,9 @@ class Ctx:
                               "depth": res.depth, "wall_s": round(res.wall, 1), "note": note})
 
     def count(self, key=None, nontrivial=True, sample=None):
+        if self.second_pass:
+            self.second_pass_evaluations = getattr(self, "second_pass_evaluations", 0) + 1
+            return
         self.evaluations += 1
         if nontrivial and key is not None:
             self.nontrivial.add(key if isinstance(key, (str, int, tuple)) else json.dumps(key, sort_keys=True))
@@ -223,8 +261,33 @@ class Ctx:
 
     def violate(self, call_site, tags, case, detail):
         """Record one deviation of the implementation from the specification."""
+        if self.second_pass:
+            # only deviations that did NOT occur when the same case ran in the first pass are new information
+            sig = json.dumps([call_site, sorted(t for t in tags), case], sort_keys=True, default=str)
+            if sig in self._first_pass_sigs:
+                return
+            tags = list(tags) + ["second_pass_in_shuffled_order"]
         self.violations.append({"property": self.prop, "call_site": call_site, "tags": sorted(tags),
                                 "case": case, "detail": detail, "full": self.full})
+
+    def run_second_pass(self, replay_fn, limit):
+        """The replay of a case is a function of the case alone: cases already replayed are replayed again in this interpreter, in a
+        shuffled order.  A deviation that appears only now means that state left behind by other calls (memo tables, shared
+        lists, module-level options) changes an answer."""
+        import random
+        if not self.seen_full:
+            return
+        self._first_pass_sigs = {json.dumps([v["call_site"], [t for t in v["tags"]], v["case"]], sort_keys=True, default=str) for v in self.violations}
+        cases = list(self.seen_full)
+        random.Random(self.seed).shuffle(cases)
+        self.second_pass = True
+        try:
+            for cs in cases[:limit]:
+                replay_fn(self, {"full": cs, "case": {}})
+        finally:
+            self.second_pass = False
+        self.extra["second_pass"] = {"cases_replayed_again_in_shuffled_order": min(limit, len(cases)),
+                                     "evaluations": getattr(self, "second_pass_evaluations", 0)}
 
     # finishing -----------------------------------------------------------
     def finish(self):
@@ -250,7 +313,7 @@ class Ctx:
             if len(paths) >= 10:
                 break
             h = hashlib.sha1(json.dumps(v, sort_keys=True, default=str).encode()).hexdigest()[:12]
-            d = os.path.join(VERIF, "replays", self.prop)
+            d = os.path.join(os.environ.get("VERIF_REPLAY_DIR") or os.path.join(VERIF, "replays"), self.prop)
             os.makedirs(d, exist_ok=True)
             p = os.path.join(d, h + ".json")
             with open(p, "w") as f:
